@@ -73,11 +73,11 @@ class ApplicationPartDelete(ApplicationBase):
             hook_notification_item_list = []
             if isinstance(item, storage.BaseCollection):
                 if self._permit_delete_collection:
-                    if access.check("d", item):
+                    if "d" in access.permissions:
                         logger.info("delete of collection is permitted by config/option [rights] permit_delete_collection but explicit forbidden by permission 'd': %s", path)
                         return httputils.NOT_ALLOWED
                 else:
-                    if not access.check("D", item):
+                    if "D" not in access.permissions:
                         logger.info("delete of collection is prevented by config/option [rights] permit_delete_collection and not explicit allowed by permission 'D': %s", path)
                         return httputils.NOT_ALLOWED
                 for i in item.get_all():
